@@ -8,7 +8,7 @@ use crate::krpc::{self, hex, Val};
 use crate::log::{ApiEv, Ev};
 use crate::stubs::{Answer, NodeRef, NodesMode, StubCfg};
 use serde_json::json;
-use std::collections::{BTreeMap, BTreeSet};
+use std::collections::BTreeSet;
 use std::net::SocketAddr;
 
 pub struct C12;
